@@ -15,6 +15,11 @@ CLAIMED = {
    text="Exhaustive ordered task systems (2 tasks x <=3 actions over 8 actions; 3 tasks x <=2 actions; thorough adds 2x<=4, 3x<=3, 4x<=2) plus random larger systems run on the real yash_executor::Executor; each step() is compared with the reference queue (task polled, wake_count, completion), instrumented futures flag poll-after-ready/re-entrancy, stalls are checked for genuinely waiting tasks, results delivered exactly once. A slice (quick 768, thorough 6144 systems) is interpreted by Miri to check the hand-written RawWaker vtable.",
    note="Trusted: the reference queue model (15 lines), the instrumented futures; Miri covers only the slice; single-threaded use as the crate documents.",
    design="5/C15, 6"),
+ "C16": dict(level="exploration", engine="lib-inproc",
+   technique="lock-step reference-model monitor (stack of maps) on the real VariableSet, breadth-first over API histories; language-level script monitor",
+   text="Part A: every API history to depth 5 (quick) / 7 (thorough) over push/pop of regular and volatile contexts, get_or_new/assign/export/read-only in each scope, unset in each scope, positional parameters on two names is executed on the real VariableSet in lock-step with a naive stack-of-maps model; every getter (get, get_scoped, iter, env_c_strings, positional_params) is compared after every operation.",
+   note="Trusted: models/vars.rs as a reading of the doc comments of variable.rs; arrays and quirks are not exercised.",
+   design="5/C16"),
 }
 
 PENDING_REASON = "monitor not implemented yet (work in progress; see DESIGN.md section 5)"
